@@ -4,6 +4,8 @@ import os
 import sqlite3
 import warnings
 
+from checks.faultdb import Plan, FConn
+
 
 class Driver:
     def __init__(self, wid, workdir, kind=None, ror=None):
@@ -34,7 +36,11 @@ class Driver:
         kw = dict(poolclass=pc, pool_reset_on_return={"rollback": "rollback", "commit": "commit", "none": None}[self.ror])
         if self.kind == "queue":
             kw.update(pool_size=1, max_overflow=0)
-        self.engine = sa.create_engine("sqlite:///" + self.path, **kw)
+        self.plan = plan = Plan()
+        path = self.path
+        # real sqlite3 connections (pysqlite legacy transaction control) behind the fault wrapper, used only to make one
+        # DBAPI commit() raise an ordinary error (CommitFail)
+        self.engine = sa.create_engine("sqlite://", creator=lambda: FConn(plan, path), **kw)
         self.raw = None
         self.rawrefs = []      # keep every raw DBAPI connection alive so id() stays unique within the walk
         self.ids = {}
@@ -75,6 +81,10 @@ class Driver:
             ret = self._call(lambda: self.conn.begin() and None)
         elif a == "Commit":
             ret = self._call(self.conn.commit)
+        elif a == "CommitFail":
+            self.plan.arm("error")
+            ret = self._call(self.conn.commit)
+            self.plan.disarm()
         elif a == "Rollback":
             ret = self._call(self.conn.rollback)
         elif a == "SetIso":
